@@ -558,6 +558,8 @@ def run(ctx):
                 random_api_case(ctx, RP, r, cid, nmax)
             elif fam == 5 and (k // 8) % 40 == 3:
                 long_lines_case(ctx, RP, r, cid, ctx.thorough)
+            elif fam == 5 and (k // 8) % 10 == 7:
+                unmasked_nan_case(ctx, RP, r, cid)
             elif fam == 5:
                 if (k // 8) % 2:
                     local_rate_case(ctx, RP, r, cid, nmax)
@@ -714,6 +716,42 @@ def long_lines_case(ctx, RP, r, cid, thorough):
     api_pair(ctx, RP, x, R, None, cid, ["long-lines"],
              {"plateau_lengths": lens, "levels": levels, "threshold": eps},
              r, all_mins=False, threshold=eps)
+
+
+def unmasked_nan_case(ctx, RP, r, cid):
+    """A series with NaN samples and missing_values=False (the default): the
+    property does not say what such a sample is to the plot, but the two
+    storage modes are two implementations of one plot - their histograms
+    agree."""
+    n = int(r.integers(6, 40))
+    d = int(r.integers(1, 3))
+    x = r.integers(-16, 17, (n, d)) / 8.0
+    x[r.random((n, d)) < 0.15] = np.nan
+    if not np.isnan(x).any():
+        x[int(r.integers(0, n)), 0] = np.nan
+    eps = float(r.choice([0.5, 1.0, 2.0]))
+    objs = {}
+    for sparse in (False, True):
+        objs[sparse] = api_object(ctx, RP, x, cid, ["unmasked-nan"], sparse,
+                                  False, threshold=eps)
+        if objs[sparse] is None:
+            return
+    ctx.count("unmasked_nan_cases")
+    for key in ("diag", "vert"):
+        name = HNAME[key]
+        with warnings.catch_warnings():
+            warnings.simplefilter("ignore")
+            ok1, a = ctx.call(getattr(objs[False], name))
+            ok2, b = ctx.call(getattr(objs[True], name))
+        ctx.evals(2)
+        if ok1 and ok2:
+            ctx.count("sequential_vs_matrix_compared")
+            ctx.nontrivial(("unmasked-nan", cid, key))
+            if not np.array_equal(a, b):
+                ctx.violation(sig("RecurrencePlot." + name,
+                                  "sequential!=matrix", ["unmasked-nan"]),
+                              {"x": x, "threshold": eps, "matrix_mode": a,
+                               "sequential_mode": b}, cid)
 
 
 def history_case(ctx, RP, r, cid, nmax):
